@@ -293,6 +293,8 @@ def term_shapes():
         ("LT", ("Ite", a, x, y), z), ("LT", ("Ite", ("forall", qa, ("Or", a, b)), x, y), z),
         ("Equals", g(("forall", qa, ("Or", a, b))), x), ("Equals", g(("And", a, b)), x),
         ("And", p(x), ("Not", p(f(y)))), ("Equals", f(f(x)), y),
+        ("LT", ("fun", "hu", INT, (US,), e1), x), p(("fun", "hu", INT, (US,), e1)),
+        ("Equals", f(("fun", "hu", INT, (US,), ("fun", "mk", US, (("BV", 4),), u))), y),
         ("forall", qx, ("LT", x, y)), ("And", ("LT", x, y), ("exists", qx, ("LT", y, x))),
         ("exists", qx, ("forall", [("y", INT)], ("LE", x, y))), ("forall", qa, ("exists", qa, ("Or", a, b))),
         ("Equals", ("Select", arr, x), y), ("Equals", ("Store", arr, x, y), arr), ("Select", barr, x),
